@@ -23,7 +23,7 @@ from . import cborx, core, envgen, project, signrun, toolrun
 from .c06_encrypt import project_info
 
 WORKER = str(Path(__file__).resolve().parent / "detworker.py")
-FW_OPS = {"create1": "create1", "create1json": "create1", "reuse1": "create1", "create2": "create2", "cache": "cache", "encrypt": "encrypt",
+FW_OPS = {"create1": "create1", "create1json": "create1", "reuse1": "create1", "failretry": "create1", "create2": "create2", "cache": "cache", "encrypt": "encrypt",
           "create3": "create3", "create3perm": "create3perm"}
 CWD_OPS = {"create3rel"}
 EXT_OPS = ("extractA", "extractB", "signrecA", "signrecB", "bootB", "bootcfg", "updateB", "signB", "parseyamlA", "parseyamlB", "convertA",
@@ -200,7 +200,7 @@ def run(ctx: core.Check):
              ["cachenv", "create1", "cachenv2", "cachenv"], ["parse", "cachenv2", "chdir", "cachenv"], ["create3", "touch_fw", "create3", "create3perm"],
              ["create3perm", "create3", "touch_fw", "create3perm"], ["create3rel", "chdir", "create3rel", "create3"],
              ["create3", "create3rel", "chdir", "create3rel"], ["parsehA", "parsehB", "parsehA", "parse"],
-             ["parsehB", "parsehA", "parsehB", "parsehB"], ["objskip", "objsign", "objsignB", "objskip"], ["objsign", "objskip", "objsignB", "objsign"], ["bootcfg", "bootB", "boot", "bootcfg"], ["boot", "bootcfg", "boot", "bootB"]]
+             ["parsehB", "parsehA", "parsehB", "parsehB"], ["objskip", "objsign", "objsignB", "objskip"], ["objsign", "objskip", "objsignB", "objsign"], ["failretry", "create1", "touch_fw", "failretry"], ["create1json", "failretry", "reuse1", "create1"], ["bootcfg", "bootB", "boot", "bootcfg"], ["boot", "bootcfg", "boot", "bootB"]]
     per_seed = 40 if ctx.quick else 700
     d = ctx.tmp("c18")
     keys = prepare(ctx, d)
